@@ -177,14 +177,29 @@ def analyse_unit(name, canary=False, rlimit=None, seed=None):
     res["trusted"] = trusted_scan(text)
     # ---- function table: marker lines `// @fn KEY`
     fn_at = []  # (line_no(1-based), key)
+    section = "overlay"
+    cur_item = None
     for i, l in enumerate(lines):
+        if l.startswith("// ======== "):
+            section = "repo" if "extracted code" in l or "imported unit" in l else "overlay"
+            if "spec prelude" in l:
+                section = "overlay"
+        mit = re.match(r"\s*// @item (.*) \(", l)
+        if mit:
+            cur_item = mit.group(1).strip()
         m = re.match(r"\s*// @fn (.*)$", l)
+        mi = re.match(r"\s*// @item (macro \S+|\S+!) ", l)
         if m:
             fn_at.append((i + 1, m.group(1).strip(), "repo"))
+        elif mi:
+            fn_at.append((i + 1, mi.group(1).strip(), "repo"))
         else:
             m = re.match(r"\s*(pub\s+)?(broadcast\s+)?(proof\s+|exec\s+|spec\s+|open\s+spec\s+|closed\s+spec\s+)?fn\s+([A-Za-z_0-9]+)", l)
             if m and not (fn_at and fn_at[-1][0] >= i - 6 and fn_at[-1][2] == "repo" and fn_at[-1][1].split("::")[-1] in (m.group(4), m.group(4)[3:] if m.group(4).startswith("vx_") else m.group(4))):
-                fn_at.append((i + 1, m.group(4), "overlay"))
+                if section == "repo" and cur_item and cur_item.startswith("macro "):
+                    fn_at.append((i + 1, f"{cur_item}::{m.group(4)}", "repo"))
+                elif section == "overlay":
+                    fn_at.append((i + 1, m.group(4), "overlay"))
 
     def fn_of_line(ln):
         best = None
@@ -240,6 +255,14 @@ def analyse_unit(name, canary=False, rlimit=None, seed=None):
                              "status": "discharged"}
                 if start is not None:
                     clause_lines.setdefault(key, []).append((start + clause["line"] - lead, oid))
+    # functions generated by a macro_rules body (e.g. delegate!): verified against the inherited trait contract
+    for (ln, k, kind) in fn_at:
+        if kind == "repo" and k.startswith("macro ") and "::" in k:
+            oid = f"{name}::{k}::inherited-contract"
+            tags = sorted(set(re.findall(r"#(C\d+)", "\n".join(lines[max(0, ln - 3):ln + 12]))))
+            obls[oid] = {"id": oid, "fn": k, "kind": "ensures", "props": tags or ["C13"],
+                         "text": "macro-generated method satisfies every clause of the trait method contract it implements",
+                         "src": "", "status": "discharged"}
     # overlay functions (lemmas, drivers): one obligation each, tagged by `// props: Cxx` comment above or unit default
     overlay_props = {}
     for i, l in enumerate(lines):
@@ -290,6 +313,13 @@ def analyse_unit(name, canary=False, rlimit=None, seed=None):
         else:
             k = "hard"
         fnk, kind = fn_of_line(ln)
+        if msg.startswith("postcondition not satisfied"):
+            # the function is where the body/exit span lies; the primary span is the clause (possibly a trait's clause)
+            for s_ in d.get("spans", []):
+                lab = s_.get("label") or ""
+                if lab.startswith("at the end of the function body") or lab.startswith("at this exit"):
+                    fnk, kind = fn_of_line(s_["line_start"])
+                    break
         rec = {"msg": msg, "line": ln, "fn": fnk, "fn_kind": kind, "class": k,
                "rendered": d.get("rendered", "")[:3000], "spans": allspans}
         if k == "hard":
@@ -331,6 +361,14 @@ def analyse_unit(name, canary=False, rlimit=None, seed=None):
             for (ln, oid) in cls:
                 if ln <= f["line"]:
                     target = oid
+        if target is None and f["msg"].startswith("postcondition not satisfied") and 0 < f["line"] <= len(lines):
+            # clause of an inherited (trait) contract: tags on the clause line decide the property
+            tags = re.findall(r"#(C\d+)", lines[f["line"] - 1])
+            clause = re.sub(r"\s+", " ", lines[f["line"] - 1].strip())[:200]
+            target = f"{name}::{key}::inherited[{clause[:60]}]"
+            if target not in obls:
+                obls[target] = {"id": target, "fn": key, "kind": "ensures", "props": sorted(set(tags or fn_props.get(key, []) + ["C03"])),
+                                "text": "trait contract clause: " + clause, "src": "", "status": "discharged"}
         if target is None and f["msg"].startswith("precondition not satisfied"):
             # tags on the failed `requires` line of the callee decide which property the call site breaks
             tags = []
